@@ -1,0 +1,88 @@
+//go:build verif
+
+// Contracts for package context, checked by /verif/govc (comment-only file; compiled only
+// with the build tag "verif", which no build of the application uses).
+package context
+
+// C13: each project type is reported at most once; "generic" is reported exactly when it is the
+// only entry; every boost is at least 1.
+
+//@ pure func noDupPT(s []ProjectType) bool = forall a, b int :: 0 <= a && a < b && b < len(s) ==> s[a] != s[b]
+//@ pure func noGeneric(s []ProjectType) bool = forall k int :: 0 <= k && k < len(s) ==> s[k] != ProjectTypeGeneric
+
+//@ func removeDuplicateProjectTypes
+//@   modifies nothing
+//@   ensures[C13.types-nodup] (cap(result) == 0 || fresh(result)) && noDupPT(result) && len(result) <= len(types)
+//@   ensures[C13.types-subset] forall a int :: 0 <= a && a < len(result) ==> (exists k int :: 0 <= k && k < len(types) && types[k] == result[a])
+//@   ensures[C13.types-superset] forall k int :: 0 <= k && k < len(types) ==> (exists a int :: 0 <= a && a < len(result) && result[a] == types[k])
+//@ loop 1
+//@   invariant seen != nil && fresh(seen) && len(result) <= $i && (cap(result) == 0 || fresh(result))
+//@   invariant forall a int :: 0 <= a && a < len(result) ==> (result[a] in seen) && seen[result[a]] && (exists k int :: 0 <= k && k < $i && types[k] == result[a])
+//@   invariant forall q ProjectType :: (q in seen) && seen[q] ==> (exists a int :: 0 <= a && a < len(result) && result[a] == q)
+//@   invariant noDupPT(result)
+//@   invariant forall k int :: 0 <= k && k < $i ==> (types[k] in seen) && seen[types[k]]
+
+//@ func (*Analyzer).finalizeContext
+//@   requires ctx != nil && noGeneric(ctx.ProjectTypes)
+//@   modifies ctx.*
+//@   ensures[C13.final-nodup] noDupPT(ctx.ProjectTypes) && len(ctx.ProjectTypes) >= 1
+//@   ensures[C13.final-generic-alone] forall k int :: 0 <= k && k < len(ctx.ProjectTypes) && ctx.ProjectTypes[k] == ProjectTypeGeneric ==> len(ctx.ProjectTypes) == 1
+//@   ensures[C13.final-generic-when-empty] len(old(ctx.ProjectTypes)) == 0 ==> len(ctx.ProjectTypes) == 1 && ctx.ProjectTypes[0] == ProjectTypeGeneric
+//@   ensures[C13.final-keeps-detected] forall k int :: 0 <= k && k < len(old(ctx.ProjectTypes)) ==> (exists a int :: 0 <= a && a < len(ctx.ProjectTypes) && ctx.ProjectTypes[a] == old(ctx.ProjectTypes[k]))
+
+// One directory entry: detected types are appended (never "generic"), into the list's own
+// backing array or a fresh one.
+//@ pure func ownedPT(s []ProjectType, b int, o int, c int) bool = cap(s) == 0 || fresh(s) || (base(s) == b && offset(s) == o && cap(s) == c)
+//@ pure func ownedStr(s []string, b int, o int, c int) bool = cap(s) == 0 || fresh(s) || (base(s) == b && offset(s) == o && cap(s) == c)
+//@ func (*Analyzer).extractMakeTargets
+//@   requires ctx != nil
+//@   modifies ctx.*, ctx.MakeTargets[*]
+//@   ensures[C13.make-keeps-types] ctx.ProjectTypes == old(ctx.ProjectTypes) && ownedStr(ctx.MakeTargets, old(base(ctx.MakeTargets)), old(offset(ctx.MakeTargets)), old(cap(ctx.MakeTargets)))
+//@ loop 1
+//@   invariant ctx.ProjectTypes == old(ctx.ProjectTypes) && ownedStr(ctx.MakeTargets, old(base(ctx.MakeTargets)), old(offset(ctx.MakeTargets)), old(cap(ctx.MakeTargets)))
+//@ func (*Analyzer).extractPackageScripts
+//@   requires ctx != nil
+//@   modifies ctx.*
+//@   ensures[C13.scripts-keeps-types] ctx.ProjectTypes == old(ctx.ProjectTypes) && ctx.MakeTargets == old(ctx.MakeTargets)
+//@ func (*Analyzer).analyzeFile
+//@   requires ctx != nil && noGeneric(ctx.ProjectTypes)
+//@   modifies ctx.*, ctx.ProjectTypes[*], ctx.MakeTargets[*]
+//@   ensures[C13.file-no-generic] noGeneric(ctx.ProjectTypes)
+//@   ensures[C13.file-owns-lists] ownedPT(ctx.ProjectTypes, old(base(ctx.ProjectTypes)), old(offset(ctx.ProjectTypes)), old(cap(ctx.ProjectTypes))) && ownedStr(ctx.MakeTargets, old(base(ctx.MakeTargets)), old(offset(ctx.MakeTargets)), old(cap(ctx.MakeTargets)))
+//@   hint[C13.step-checkContainerization] checkContainerization noGeneric(ctx.ProjectTypes) && ownedPT(ctx.ProjectTypes, old(base(ctx.ProjectTypes)), old(offset(ctx.ProjectTypes)), old(cap(ctx.ProjectTypes))) && ownedStr(ctx.MakeTargets, old(base(ctx.MakeTargets)), old(offset(ctx.MakeTargets)), old(cap(ctx.MakeTargets)))
+//@   hint[C13.step-checkJavaScript] checkJavaScript noGeneric(ctx.ProjectTypes) && ownedPT(ctx.ProjectTypes, old(base(ctx.ProjectTypes)), old(offset(ctx.ProjectTypes)), old(cap(ctx.ProjectTypes))) && ownedStr(ctx.MakeTargets, old(base(ctx.MakeTargets)), old(offset(ctx.MakeTargets)), old(cap(ctx.MakeTargets)))
+//@   hint[C13.step-checkPython] checkPython noGeneric(ctx.ProjectTypes) && ownedPT(ctx.ProjectTypes, old(base(ctx.ProjectTypes)), old(offset(ctx.ProjectTypes)), old(cap(ctx.ProjectTypes))) && ownedStr(ctx.MakeTargets, old(base(ctx.MakeTargets)), old(offset(ctx.MakeTargets)), old(cap(ctx.MakeTargets)))
+//@   hint[C13.step-checkGo] checkGo noGeneric(ctx.ProjectTypes) && ownedPT(ctx.ProjectTypes, old(base(ctx.ProjectTypes)), old(offset(ctx.ProjectTypes)), old(cap(ctx.ProjectTypes))) && ownedStr(ctx.MakeTargets, old(base(ctx.MakeTargets)), old(offset(ctx.MakeTargets)), old(cap(ctx.MakeTargets)))
+//@   hint[C13.step-checkRust] checkRust noGeneric(ctx.ProjectTypes) && ownedPT(ctx.ProjectTypes, old(base(ctx.ProjectTypes)), old(offset(ctx.ProjectTypes)), old(cap(ctx.ProjectTypes))) && ownedStr(ctx.MakeTargets, old(base(ctx.MakeTargets)), old(offset(ctx.MakeTargets)), old(cap(ctx.MakeTargets)))
+//@   hint[C13.step-checkJava] checkJava noGeneric(ctx.ProjectTypes) && ownedPT(ctx.ProjectTypes, old(base(ctx.ProjectTypes)), old(offset(ctx.ProjectTypes)), old(cap(ctx.ProjectTypes))) && ownedStr(ctx.MakeTargets, old(base(ctx.MakeTargets)), old(offset(ctx.MakeTargets)), old(cap(ctx.MakeTargets)))
+//@   hint[C13.step-checkDotNet] checkDotNet noGeneric(ctx.ProjectTypes) && ownedPT(ctx.ProjectTypes, old(base(ctx.ProjectTypes)), old(offset(ctx.ProjectTypes)), old(cap(ctx.ProjectTypes))) && ownedStr(ctx.MakeTargets, old(base(ctx.MakeTargets)), old(offset(ctx.MakeTargets)), old(cap(ctx.MakeTargets)))
+//@   hint[C13.step-checkRuby] checkRuby noGeneric(ctx.ProjectTypes) && ownedPT(ctx.ProjectTypes, old(base(ctx.ProjectTypes)), old(offset(ctx.ProjectTypes)), old(cap(ctx.ProjectTypes))) && ownedStr(ctx.MakeTargets, old(base(ctx.MakeTargets)), old(offset(ctx.MakeTargets)), old(cap(ctx.MakeTargets)))
+//@   hint[C13.step-checkPHP] checkPHP noGeneric(ctx.ProjectTypes) && ownedPT(ctx.ProjectTypes, old(base(ctx.ProjectTypes)), old(offset(ctx.ProjectTypes)), old(cap(ctx.ProjectTypes))) && ownedStr(ctx.MakeTargets, old(base(ctx.MakeTargets)), old(offset(ctx.MakeTargets)), old(cap(ctx.MakeTargets)))
+//@   hint[C13.step-checkCCpp] checkCCpp noGeneric(ctx.ProjectTypes) && ownedPT(ctx.ProjectTypes, old(base(ctx.ProjectTypes)), old(offset(ctx.ProjectTypes)), old(cap(ctx.ProjectTypes))) && ownedStr(ctx.MakeTargets, old(base(ctx.MakeTargets)), old(offset(ctx.MakeTargets)), old(cap(ctx.MakeTargets)))
+//@   hint[C13.step-checkInfrastructure] checkInfrastructure noGeneric(ctx.ProjectTypes) && ownedPT(ctx.ProjectTypes, old(base(ctx.ProjectTypes)), old(offset(ctx.ProjectTypes)), old(cap(ctx.ProjectTypes))) && ownedStr(ctx.MakeTargets, old(base(ctx.MakeTargets)), old(offset(ctx.MakeTargets)), old(cap(ctx.MakeTargets)))
+//@ func (*Analyzer).AnalyzeDirectory
+//@   modifies nothing
+//@   ensures[C13.analyze-shape] result1 == nil && result0 != nil && fresh(result0)
+//@   ensures[C13.types-at-most-once] noDupPT(result0.ProjectTypes)
+//@   ensures[C13.generic-iff-alone] len(result0.ProjectTypes) >= 1 && (forall k int :: 0 <= k && k < len(result0.ProjectTypes) && result0.ProjectTypes[k] == ProjectTypeGeneric ==> len(result0.ProjectTypes) == 1)
+//@ loop 1
+//@   invariant ctx != nil && fresh(ctx) && (cap(ctx.ProjectTypes) == 0 || fresh(ctx.ProjectTypes)) && (cap(ctx.MakeTargets) == 0 || fresh(ctx.MakeTargets)) && noGeneric(ctx.ProjectTypes)
+//@   invariant forall k int :: 0 <= k && k < len(files) ==> files[k] != nil
+
+// The boost table: every entry is at least 1. Assumed at function entry as an axiom, justified
+// by the static obligations "init-table" (the package initialiser stores only constants >= 1 into
+// the table, and no function assigns the table or an entry of it afterwards).
+//@ axiom C13.boost-table boostTableOK()
+//@ pure func boostTableOK() bool = forall t ProjectType, k string :: (t in projectBoosts) && (k in projectBoosts[t]) ==> projectBoosts[t][k] >= 1.0
+//@ func (*Context).GetContextBoosts
+//@   modifies nothing
+//@   ensures[C13.boosts-at-least-one] result != nil && fresh(result) && (forall k string :: (k in result) ==> result[k] >= 1.0)
+//@ loop 1
+//@   invariant boostTableOK() && boosts != nil && fresh(boosts) && (forall k string :: (k in boosts) ==> boosts[k] >= 1.0)
+//@ loop 2
+//@   invariant boostTableOK() && boosts != nil && fresh(boosts) && (forall k string :: (k in boosts) ==> boosts[k] >= 1.0)
+//@ loop 3
+//@   invariant boostTableOK() && boosts != nil && fresh(boosts) && (forall k string :: (k in boosts) ==> boosts[k] >= 1.0)
+//@ loop 4
+//@   invariant boostTableOK() && boosts != nil && fresh(boosts) && (forall k string :: (k in boosts) ==> boosts[k] >= 1.0)
+
